@@ -232,7 +232,7 @@ def check_uncert_text(fmt, text, x, xe, p, suffix, with_layout=True):
         plain = POW['plain'].match(text) is None if fmt == 'plain' else e is None
         if plain and l2 > l1:
             return '%r: plain layout (%d chars) chosen although the exponent layout has %d' % (text, l2, l1)
-        if not plain and l2 <= l1:
+        if not plain and l2 < l1:      # on a tie either is "the shorter" (the code prefers plain; tied by the correspondence)
             return '%r: exponent layout (%d chars) chosen although the plain layout has %d' % (text, l1, l2)
     return None
 
@@ -498,6 +498,8 @@ class C20(Property):
                 want_e = int(c['mantissa'])
             except ValueError:
                 return None
+            if not re.fullmatch(SIG, c['significand']):
+                return None            # not a numeral the property speaks about: correspondence only
             try:
                 text = getattr(N, '_%s_pow_10' % c['fmt'])(c['significand'], c['mantissa'])
                 sig, e, rest = read_sci(c['fmt'], text)
@@ -515,6 +517,8 @@ class C20(Property):
             xe = fx(c['xef']) if 'xef' in c else None
             suffix = ''
             num, unc = x, xe
+            if xe is not None and ilog10(abs(F(x))) < ilog10(abs(F(xe))) - (2 if c['p'] is None else c['p']) + 1:
+                return None            # value below the uncertainty's last digit: outside the property (code raises ValueError)
             if c['unit'] is not None:
                 u = make_unit(c['unit'])
                 num = x * u
